@@ -28,7 +28,8 @@ PROPS["C16"] = {
                   "number classification. Only spaces are varied as separators."
                   " Later widening: tab, line end and the byte 0xff are in the exhaustive alphabet; the reference tokeniser treats space, tab and line end as blanks, folds case without touching bytes that are not UTF-8, and abstains on other Unicode blanks."
                   " Round 5: form feed joins the exhaustive alphabet (a blank the documentation does not mention: the reference abstains, the token-truth invariants still apply); the source span of a word is computed letter by letter (case folding may change the byte length of a letter); the native fuzz leg no longer filters its inputs."
-                  " Round 6: the bytes 0xC3 and 0xA0 join the exhaustive alphabet (together the letter a-grave, whose last byte read alone is the Latin-1 no-break space); words ending in such letters in the spacing leg.",
+                  " Round 6: the bytes 0xC3 and 0xA0 join the exhaustive alphabet (together the letter a-grave, whose last byte read alone is the Latin-1 no-break space); words ending in such letters in the spacing leg."
+                  " Round 7: letters whose lower-case form has another byte length (U+023A, U+212A, U+0130, U+2126) in the words and literal contents of the spacing leg.",
     "rule": "leg Exhaustive: every string of length 1..L over the 25-symbol token alphabet "
             "{a 1 . space ' \" ` = ! < > ^ ~ & | ( ) [ ] , ; + - * /} (L=4 quick, L=5 thorough), each emitted exactly once; "
             "leg Spacing: rapid-generated token sequences (<=8 tokens: keywords in mixed case, names, numbers, floats, "
@@ -210,7 +211,8 @@ PROPS["C04"] = {
                   "Floats are exactly representable (k/4) and small so equality is exact; literal zero divisors are refused statically and skipped."
                   " Later widening: floats that are not exactly representable (0.1, 0.2) and constant conversion calls (float(3), float('2'), int('7')) among the leaves. Pairs on which the reference reports a magnitude error (the original only evaluates by wrapping around int64) are skipped and counted."
                   " Round 5: leg TestC04AggrFields - a constant Boolean combined (& | and or, either side, bare or inside str()) with an operand that holds an aggregate function, also under !: the statement must return the same rows as the same statement with the constant written as a predicate of the pair that cannot be folded (strlen(key) >= 0 / < 0), i.e. the statement without the rewrite."
-                  " Round 6: every arithmetic shape is also placed in `e = v`, `e >= v`, `e <= v` with v the value of e on one of the pairs (a rewrite that moves e by one unit in the last place below a Boolean root changes the rows); the pairs hold 0.1, 0.3, 0.7 and 2.675.",
+                  " Round 6: every arithmetic shape is also placed in `e = v`, `e >= v`, `e <= v` with v the value of e on one of the pairs (a rewrite that moves e by one unit in the last place below a Boolean root changes the rows); the pairs hold 0.1, 0.3, 0.7 and 2.675."
+                  " Round 7: every arithmetic shape is also run under a name (`e as c1, c1 as c2, c1 + 0 as c3`): the field, a field that is only its name and a field that uses the name must all show the value of e as written.",
     "rule": "enumerated expressions placed as select field or inside a WHERE comparison (each emitted once) + rapid typed trees depth 1-4. "
             "Non-trivial = the rewrite changed the rendered expression (String() differs) and the original evaluates on at least one pair; "
             "distinct = distinct statements.",
@@ -338,7 +340,8 @@ PROPS["C17"] = {
     "level_note": "Rendering is checked for single-line queries only (the window logic is line oriented); crashes while rendering are C06's subject and are also reported here as violations of the render leg."
                   " The reference tokeniser abstains on Unicode blanks other than space, tab and line end (the engine's own token starts are accepted there)."
                   " Round 5: blanks the documentation does not mention (form feed, vertical tab, NBSP, U+3000) in front of tokens, for one statement in four behind every space; where the reference abstains, no token start may lie ON a blank."
-                  " Round 6: one statement in five is written over several lines (CRLF, LF, tabs): positions are checked, the line-oriented rendering is not; every error returned by BuildPlan, whatever its Go type, must point at 0, -1 or a token start.",
+                  " Round 6: one statement in five is written over several lines (CRLF, LF, tabs): positions are checked, the line-oriented rendering is not; every error returned by BuildPlan, whatever its Go type, must point at 0, -1 or a token start."
+                  " Round 7: after the first rendering is verified the padding of the SAME error is changed and the rendering verified again.",
     "rule": "rapid legs Corrupt / RunTime / Typed (+ native fuzz executions in the thorough tier). Non-trivial = a positional error with Pos >= 0 in a "
             "query longer than 70 bytes or with leading blanks; distinct = distinct (query, padding mode).",
     "assumptions": ["Go toolchain and pgregory.net/rapid v1.3.0 are trusted", "token starts are taken from the engine lexer (validated by C16) and from the reference tokeniser"],
@@ -491,7 +494,8 @@ PROPS["C12"] = {
                   "executed in order, so no pair can depend on its neighbours. Histories as in C11.",
     "level_note": "Numbers are integers (float rendering is unspecified). Empty keys are outside the domain."
                   " Leg TestC12FloatKeys: float-valued key expressions (the reference has no text form for floats): remove e must delete exactly the key that put (e, ..) wrote. Key expressions no longer mention the key keyword (refused by the engine since repair 56 of DESIGN 8.1; C14 asserts the refusal)."
-                  " Round 5: one PUT in ten has the key keyword inside the key expression of one of its pairs (any position): it must be refused before any storage call (spec.md: key only generates the value); one statement in six uses a member of a constant JSON object as an operand (only text members can be written).",
+                  " Round 5: one PUT in ten has the key keyword inside the key expression of one of its pairs (any position): it must be refused before any storage call (spec.md: key only generates the value); one statement in six uses a member of a constant JSON object as an operand (only text members can be written)."
+                  " Round 7: integer literals with leading zeros (007 is the number 7) - in a third of the integer PUT keys and values, and now and then wherever an integer literal is drawn.",
     "rule": "rapid single statements + histories. Non-trivial = a duplicate key, a value that depends on key, a REMOVE of an existing key, or a failing "
             "expression after a succeeding one; distinct = distinct (statement, prior state, polls).",
     "assumptions": COMMON_ASSUMPTIONS,
